@@ -275,30 +275,61 @@ class Universe(object):
         return tuple(out)
 
     def hidden(self):
-        """Hidden bits: do the lazily created private attributes exist?  (peek only; harness de-dup)"""
-        bits = []
+        """Hidden-state fingerprint (peek only; used for de-duplication, never by an oracle): which private
+        attributes exist on each node and - for anything but the parent/children links themselves - their value
+        with node references replaced by labels.  For the pinned code this is two bits per node (the lazily
+        created link attributes); a cache added to the node objects makes the key finer automatically, so the
+        search explores its states too."""
+        out = []
         for lbl in self.labels:
             node = self.nodes.get(lbl)
             if node is None:
-                bits.append(0)
+                out.append(0)
                 continue
-            pre = "_LightNodeMixin" if not is_nodemixin_kind(self.ckeys[self.labels.index(lbl)]) else "_NodeMixin"
-            b = 0
+            items = []
             try:
                 d = object.__getattribute__(node, "__dict__")
             except AttributeError:
                 d = None
             if d is not None:
-                b = (1 if pre + "__parent" in d else 0) | (2 if pre + "__children" in d else 0)
-            else:
-                for bit, nm in ((1, "__parent"), (2, "__children")):
+                for k in d:
+                    if k.startswith("_"):
+                        items.append((k, d[k]))
+            for klass in type(node).__mro__:
+                for sl in klass.__dict__.get("__slots__", ()) if isinstance(klass.__dict__.get("__slots__", ()), (list, tuple)) else ():
+                    name = sl if not sl.startswith("__") or sl.endswith("__") else "_%s%s" % (klass.__name__.lstrip("_"), sl)
+                    if not name.startswith("_"):
+                        continue
                     try:
-                        object.__getattribute__(node, pre + nm)
-                        b |= bit
+                        items.append((name, object.__getattribute__(node, name)))
                     except AttributeError:
                         pass
-            bits.append(b)
-        return tuple(bits)
+            bits = 0
+            extra = []
+            for k, v in items:
+                if k.endswith("__parent"):
+                    bits |= 1
+                elif k.endswith("__children"):
+                    bits |= 2
+                else:
+                    extra.append((k, self._canon(v)))
+            out.append(bits if not extra else (bits, tuple(sorted(extra))))
+        return tuple(out)
+
+    def _canon(self, v, depth=0):
+        if v is None or isinstance(v, (bool, int, str, float)):
+            return v
+        if id(v) in self.lab:
+            return "@" + self.lab[id(v)]
+        if depth > 4:
+            return "..."
+        if isinstance(v, (list, tuple)):
+            return tuple(self._canon(x, depth + 1) for x in v)
+        if isinstance(v, (set, frozenset)):
+            return ("set",) + tuple(sorted((self._canon(x, depth + 1) for x in v), key=repr))
+        if isinstance(v, dict):
+            return ("dict",) + tuple(sorted(((self._canon(k, depth + 1), self._canon(x, depth + 1)) for k, x in v.items()), key=repr))
+        return "<%s>" % type(v).__name__
 
 
 class Exec(object):
@@ -310,13 +341,53 @@ class Exec(object):
     )
 
 
+_MODSTATE = {}
+
+
+def reset_module_state():
+    """Own process-wide mutable state of anytree.node.*: module-level and class-level containers are restored to
+    what they were at import time before every execution, so that executions are independent of each other
+    (as one resets functools caches in a long-lived worker).  State that survives *within* one history is still
+    explored - see the faulted multi-step histories."""
+    import sys as _sys
+
+    if not _MODSTATE:
+        for mname, mod in list(_sys.modules.items()):
+            if not mname.startswith("anytree.node") or mod is None:
+                continue
+            for gname, val in list(vars(mod).items()):
+                if isinstance(val, (set, dict, list)) and not gname.startswith("__"):
+                    _MODSTATE[(mname, gname, None)] = (val, type(val)(val))
+                elif isinstance(val, type) and getattr(val, "__module__", "") == mname:
+                    for aname, aval in list(vars(val).items()):
+                        if isinstance(aval, (set, dict, list)) and not aname.startswith("__"):
+                            _MODSTATE[(mname, gname, aname)] = (aval, type(aval)(aval))
+        _MODSTATE[("", "", "")] = (None, None)
+    for key, (live, snap) in _MODSTATE.items():
+        if live is None:
+            continue
+        if isinstance(live, list):
+            live[:] = snap
+        else:
+            live.clear()
+            live.update(snap)
+
+
 def rebuild(kind, n, witness):
+    """Fresh universe + replay.  A witness step is an op, or ("fault", op, raise_at, persist): an op executed
+    under a fault plan (multi-step histories in which an earlier call was aborted by a hook)."""
+    reset_module_state()
     u = Universe(kind, n)
     for w in witness:
+        if w and w[0] == "fault":
+            u.arm(w[2], w[3])
+            w = w[1]
         try:
             u.apply(w)
         except Exception:  # noqa - a refused call may be part of a witness (it can flip hidden bits)
             pass
+        u.raise_at = frozenset()
+        u.persist = None
     return u
 
 
